@@ -64,6 +64,9 @@ func checkC08(c *Ctx) {
 	c.Rule("C08-R13", "the reported width is that of the rune under the setting tcell chooses at init: a width table built from the runewidth condition (CreateLUT) freezes the East Asian setting of that moment, so it is built only after the setting was decided")
 	c.Expect("C08-R13", 1)
 	checkWidthTableAfterSetting(c, p, "C08-R13")
+	c.Rule("C08-R14", "a blank of width 1 for zero-width or control runes: GetContent returns as primary rune only ' ', zero, or the stored rune on a path where its width is not 0 and it is not a control (= C09-R2)")
+	c.Expect("C08-R14", 2)
+	c.asRule("C09-R2", "C08-R14", func() { c09Sanitiser(c, p) })
 	ms := cbMethods(p)
 	for _, need := range []string{"SetContent", "GetContent", "Dirty", "SetDirty", "Invalidate", "Resize", "Fill", "LockCell", "UnlockCell"} {
 		if ms[need] == nil {
